@@ -81,7 +81,10 @@ func splitCount(n int, props M) (k int, fragile bool) {
 	ratio := numOr(props, "ratio", 0)
 	x := float64(n) * ratio
 	k = int(math.Floor(x))
-	if !isDyadic(ratio) && math.Abs(x-math.Round(x)) < 1e-9 {
+	// the float product lands just BELOW an integer the decimal ratio may have been meant to reach (10 x 0.3 style):
+	// floor of the product and floor of the intended value differ, so the case is not judged. A product at or just
+	// above an integer is unambiguous (both readings give that integer).
+	if !isDyadic(ratio) && x < math.Round(x) && math.Round(x)-x < 1e-9 {
 		fragile = true
 	}
 	mn := int(numOr(props, "min", 0))
